@@ -59,6 +59,17 @@ package client
 //
 // ---- C07: the stream session re-frames whatever the reads deliver ---------------------------------------
 //
+// shrinkBufferIfNecessary (called by Run after every pass over the buffer) may swap an EMPTY buffer whose
+// array has grown beyond the cache size for a fresh small one; the unread bytes are the same afterwards -
+// none are lost and none appear (seed C07c-1 handed back a buffer that started with cache-size zero bytes,
+// which were then parsed as frames nobody sent).
+//
+//@ func shrinkBufferIfNecessary(buffer *bytes.Buffer, maxCap uint16) (out *bytes.Buffer)
+//@   requires bufOK(buffer)
+//@   ensures [unread-bytes-kept] bufOK(out) && len(out.buf) - out.off == old(len(buffer.buf) - buffer.off)
+//@   ensures [same-buffer-unless-empty] old(len(buffer.buf) - buffer.off) > 0 ==> out == buffer
+//@   ensures [buffer-untouched] out == buffer ==> buffer.buf == old(buffer.buf) && buffer.off == old(buffer.off)
+//
 // seekBufferToNextMessage consumes exactly msgSize bytes of the buffer (the rest stays, in place).
 //
 //@ immutable Session.maxMessageSize
@@ -135,3 +146,27 @@ package client
 //@   param handler:
 //@     modifies a0.response
 //@     ensures a0.response != nil
+
+// ---- C13 / C03: signal messages (stream transports) -------------------------------------------------------
+//
+// A Pong consumes the continuation of the ping it answers: the entry is taken OUT of the token table
+// (one-shot, like every response), not just looked up - nothing sweeps this table, so an entry left
+// behind by an answered ping would stay for the life of the connection (seed C13c-1 used Load). No other
+// signal touches the token table; every signal message is consumed here (never queued as a request).
+//
+//@ func (*Conn) sendPong(token message.Token) (err error)
+//@   trusted
+//@   modifies anything
+//
+//@ func (*Conn) handleTCPSignalReceived(code codes.Code)
+//@   trusted
+//@   modifies anything
+//
+//@ func (*Conn) handleSignals(r *pool.Message) (consumed bool)
+//@   requires cc != nil && r != nil && cc.tokenHandlerContainer != nil
+//@   modifies anything
+//@   opaque-calls pure
+//@   ensures [signals-are-consumed] consumed <==> (callRes(Code, 0, 0) == 225 || callRes(Code, 0, 0) == 226 || callRes(Code, 0, 0) == 227 || callRes(Code, 0, 0) == 228 || callRes(Code, 0, 0) == 229)
+//@   ensures [pong-takes-its-continuation-out] callRes(Code, 0, 0) == 227 ==> callCount(LoadAndDelete) == 1 && notCalled(Load)
+//@   ensures [pong-runs-it-once] callRes(Code, 0, 0) == 227 && callRes(LoadAndDelete, 0, 1) ==> callCount(processReceivedMessage) == 1 && callArg(processReceivedMessage, 0, 0) == r
+//@   ensures [other-signals-leave-the-table-alone] callRes(Code, 0, 0) != 227 ==> notCalled(LoadAndDelete) && notCalled(Load) && notCalled(Delete) && notCalled(Store) && notCalled(processReceivedMessage)
